@@ -9,7 +9,7 @@ PID = 'C05'
 MODULES = ['NoteSeqVerif.Props.C05']
 EXE = 'drv_c05'
 THEOREMS = ['NSV.C05.' + t for t in (
-    'mxml_pitch', 'mxml_pitch_steps', 'mxml_key', 'mxml_key_table', 'mxml_key_transpose',
+    'mxml_chord_onset_exact', 'mxml_pitch', 'mxml_pitch_steps', 'mxml_key', 'mxml_key_table', 'mxml_key_transpose',
     'mxml_cursor', 'mxml_time_partial', 'mxml_time_first_part', 'mxml_part_start', 'mxml_time_later_part_partial',
     'mxml_note_times', 'mxml_total_time', 'mxml_tempo_marks', 'mxml_harmony_time', 'mxml_time_fails_today',
     'mxml_attrs', 'mxml_rests_dropped', 'mxml_channel_program', 'mxml_score_part_declared',
@@ -629,7 +629,8 @@ def walk_part(sc, pi):
     div, q, t = None, F(0), 0
     meter = None
     ev = {'notes': [], 'harm': [], 'keys': [], 'tsigs': [], 'marks': [], 'moves': [], 'measures': []}
-    main = None   # (q, qdur) of the note a following <chord/> note belongs to
+    main = None   # (q, qdur, index in ev['notes'], <duration>, epoch) of the note a following <chord/> note belongs to
+    epoch = 0     # counts the changes of divisions / tempo read so far
     for m in part['measures']:
         mstart, v1 = q, F(0)
         for e in m:
@@ -641,6 +642,7 @@ def walk_part(sc, pi):
                         if a[1] <= 0:
                             raise Unjudged('divisions <= 0')
                         div = a[1]
+                        epoch += 1
                     elif a[0] == 'k':
                         if a[1] is None or not -7 <= a[1] <= 7:
                             raise Unjudged('fifths')
@@ -667,23 +669,27 @@ def walk_part(sc, pi):
                 if ty not in TYPE_RATIO or (n['tup'] is not None and (n['tup'][0] <= 0 or n['tup'][1] <= 0)):
                     raise Unjudged('type / tuplet')
                 ratio = TYPE_RATIO[ty] / (F(*n['tup']) if n['tup'] else 1) * (2 - F(1, 2 ** n['dots']))
+                head = None
                 if n['chord']:
                     if main is None:
                         raise Unjudged('chord without a first note')
-                    on, qd = main
+                    on, qd, hi, hdur, hepoch = main
+                    # (index of the chord's first note, may its end be demanded equal too: same <duration>, and
+                    # neither divisions nor tempo changed in between)
+                    head = (hi, n['dur'] == hdur and epoch == hepoch)
                 else:
                     on, qd = q, F(n['dur'], div)
                     ev['moves'].append((q, qd))
                     q += qd
                     if voice == 1:
                         v1 += qd
-                    main = (on, qd) if n['k'] == 'p' else None
+                    main = (on, qd, len(ev['notes']), n['dur'], epoch) if n['k'] == 'p' else None
                 if n['k'] == 'p':
                     if n['step'] not in STEP_PC or pyint(n['alter'] or '0') is None:
                         raise Unjudged('step / alter')
                     pitch = 12 * (int(n['oct']) + 1) + STEP_PC[n['step']] + int(n['alter'] or '0') + t
                     ev['notes'].append({'part': pi, 'voice': voice, 'pitch': pitch, 'q': on, 'qd': qd, 'chan': chan,
-                                        'prog': prog, 'num': ratio.numerator, 'den': ratio.denominator})
+                                        'prog': prog, 'num': ratio.numerator, 'den': ratio.denominator, 'head': head})
             elif k in 'BF':
                 if div is None:
                     raise Unjudged('no divisions')
@@ -696,6 +702,7 @@ def walk_part(sc, pi):
                         raise Unjudged('dynamics')
                     if tempo is not None:
                         ev['marks'].append((q, float(tempo) if float(tempo) != 0 else 120.0))
+                        epoch += 1
             elif k == 'H':
                 if t:
                     raise Unjudged('harmony in a transposing part')
@@ -831,10 +838,24 @@ def oracle(sc, ns, err):
         bad.append(('part %d %s: %s s, expected %s s' % (pi, what, float(got), float(want)), None))
 
     # ---- notes
-    exp = [n for w in walks for n in w['notes']]
+    exp, base = [], []
+    for w in walks:
+        base += [len(exp)] * len(w['notes'])
+        exp += w['notes']
     if len(ns.notes) != len(exp):
         bad.append(('%d notes for %d pitched <note> elements' % (len(ns.notes), len(exp)), None))
     else:
+        # chords share their first note's onset: the SAME number, not a number close to it (and the same end when
+        # the chord note declares the same <duration> under the same divisions and tempo)
+        for i, (g, x) in enumerate(zip(ns.notes, exp)):
+            if x['head'] is not None:
+                h = ns.notes[base[i] + x['head'][0]]
+                if g.start_time != h.start_time:
+                    bad.append(('note %d is a <chord/> note but starts at %r s, the first note of its chord (note %d) '
+                                'starts at %r s: not the same onset' % (i, g.start_time, base[i] + x['head'][0], h.start_time), None))
+                elif x['head'][1] and g.end_time != h.end_time:
+                    bad.append(('note %d is a <chord/> note of the same duration as the first note of its chord (note %d) '
+                                'but ends at %r s, not at %r s' % (i, base[i] + x['head'][0], g.end_time, h.end_time), None))
         for i, (g, x) in enumerate(zip(ns.notes, exp)):
             for f, gv, xv in (('pitch', g.pitch, x['pitch']), ('voice', g.voice, x['voice']), ('part', g.part, x['part']),
                               ('instrument (MIDI channel)', g.instrument, x['chan']), ('program', g.program, x['prog']),
